@@ -287,6 +287,24 @@ func registerIntrinsics(m *Machine) {
 		m.assertProp(a[0].(*Term), a[1].(Str).s)
 		return nil
 	}
+	in["sym:symAssertEq"] = func(m *Machine, fr *frame, a []value) value {
+		got, want := a[0].(Str), a[1].(Str)
+		p := m.path
+		nv, nk := len(p.Violations), len(p.KnownHits)
+		m.path.obs = append(m.path.obs, obsRec{"~got", got}, obsRec{"~want", want})
+		defer func() {
+			// the two pseudo-observations only serve to show got/want in a violation report
+			p.obs = p.obs[:len(p.obs)-2]
+			for i := nv; i < len(p.Violations); i++ {
+				stripEqObs(&p.Violations[i])
+			}
+			for i := nk; i < len(p.KnownHits); i++ {
+				stripEqObs(&p.KnownHits[i])
+			}
+		}()
+		m.assertProp(m.strEq(got, want), a[2].(Str).s)
+		return nil
+	}
 	in["sym:symCover"] = func(m *Machine, fr *frame, a []value) value {
 		label := a[0].(Str).s
 		m.path.covers[label]++
@@ -484,4 +502,13 @@ func (m *Machine) dfaAccepts(trans []value, nc int, class []value, start *Term, 
 		}
 	}
 	return res
+}
+
+func stripEqObs(v *Violation) {
+	obs := v.Case.Obs
+	if len(obs) >= 2 && obs[len(obs)-2].Label == "~got" {
+		v.Inputs["~got"] = obs[len(obs)-2].Val
+		v.Inputs["~want"] = obs[len(obs)-1].Val
+		v.Case.Obs = obs[:len(obs)-2]
+	}
 }
